@@ -24,7 +24,8 @@ ASSUMPTIONS = [
 
 
 def carve_fn(src):
-    ns = dict(And=band, Or=bor, Not=bnot, Implies=implies, z3=z3, cmp=cmp)
+    from . import pinned
+    ns = dict(And=band, Or=bor, Not=bnot, Implies=implies, z3=z3, cmp=cmp, arith=arith, split=split, len=len, pinned=pinned)
     return eval(src, ns)
 
 
@@ -151,8 +152,11 @@ def check_property(pid, tier, cache=True, only_groups=None):
     for k in known_all:
         if k.get('carve_out') and k.get('group'):
             for gn in ([k['group']] + list(k.get('also_groups', []))):
-                known_by_group.setdefault(gn, []).append(('carve', k['carve_out']))
-        if k.get('native_match'):
+                known_by_group.setdefault(gn, []).append(('carve', k['carve_out'], k.get('pinned')))
+        if k.get('native_pinned'):
+            for gn in k.get('groups', []):
+                known_by_group.setdefault(gn, []).append(('native_pinned', k['native_pinned']))
+        elif k.get('native_match'):
             for gn in k.get('groups', []):
                 known_by_group.setdefault(gn, []).append(('native', k['native_match']))
     log("== %s (%s tier): %d obligation groups: %s" % (pid, tier, len(gnames), ', '.join(gnames)))
